@@ -47,6 +47,16 @@ def search(ctx, N):
                 continue
             if not np.array_equal(H, H.T):
                 ctx.violation('hessian-asymmetric:%s' % method, 'Hessian(method=%r) is not exactly symmetric: max |H - H.T| = %.3g' % (method, float(np.max(np.abs(H - H.T)))), desc)
+            # the same call without full_output and with x given as a list: same shape, same bits
+            if k % 4 == 1:
+                try:
+                    H2 = np.asarray(nd.Hessian(lambda t, fc=fcall: fc(np.asarray(t)), method=method, **kw)(x.tolist()))
+                    ctx.count(1, ('hessian-list-x', method))
+                    if H2.shape != (dim, dim) or not np.array_equal(H2, H):
+                        ctx.violation('hessian-container:%s' % method, 'Hessian(method=%r)(x as a list), without full_output, has shape %r / other numbers than the full_output call on the array (max difference %.3g)' % (
+                            method, H2.shape, float(np.max(np.abs(H2 - H))) if H2.shape == H.shape else float('nan')), desc)
+                except Exception as ex:   # noqa
+                    ctx.violation('hessian-raises:%s:list' % method, 'nd.Hessian(f, method=%r)(x as a list) raises %r' % (method, ex), desc)
             tol = (1e-7 if quad else 1e-4) * S * (100 if method in ('forward', 'backward') else 1)
             if not np.all(np.abs(H - H0) <= tol + 1e3 * np.broadcast_to(np.asarray(info.error_estimate).reshape(H.shape), H.shape)):
                 ctx.violation('hessian-value:%s' % method, 'Hessian(method=%r) differs from the analytic Hessian by %.3g (%s f)' % (method, float(np.max(np.abs(H - H0))), 'quadratic' if quad else 'exp/sin/quadratic'), desc)
